@@ -295,7 +295,7 @@ class CallMixin:
             if p not in fr.env:
                 raise Unsupported(f"contract {spec.fid}: parameter {p} not bound")
             v = fr.env[p]
-            cv = v if isinstance(kind, FUNC) and isinstance(v, VFunc) else self.coerce(st, v, kind)
+            cv = v if (isinstance(kind, FUNC) and isinstance(v, VFunc)) or kind is ANY else self.coerce(st, v, kind)
             if cv is None:
                 raise Unsupported(f"contract {spec.fid}: argument {p} ({type(v).__name__}:{getattr(v,'kind','?')}) does not fit kind {kind}")
             names[p] = cv
